@@ -4,8 +4,11 @@ is copied and the copy is read by read_all_values_from_file, reopened by a new M
 MultiProcessCollector together with complete files.  close() is a file operation too (file compared before/after), also
 when run by a really forked child on the handle it inherited while the parent writes on; worker files of every metric
 type are cut inside label-group creation and scraped (no series may appear that nobody wrote); files of every kind
-vanish between the collector's listing and its read.  Model: coq/model/MmapDict.v (effect traces and their cuts,
-close_effects, wop/wrun for forked children, read_listed for vanished files)."""
+vanish between the collector's listing and its read.  THE READER INTERLEAVED WITH THE WRITER: the file object that
+read_all_values_from_file opens is wrapped so that every one of its accesses (open, each read, each seek) is a
+pre-emption point at which the writer advances by 0..k of the recorded file effects (block size patched small and real).
+Model: coq/model/MmapDict.v (effect traces and their cuts, close_effects, wop/wrun for forked children, read_listed for
+vanished files, read_all_from_file_il for the reader whose two reads see two different cuts)."""
 import os
 import shutil
 import signal
@@ -37,6 +40,17 @@ RULE = ('writer histories as in C10 (new keys, overwrites, read_value initialisa
         'histogram _count of a group with a written bucket aside); VANISHING FILES: a file of EVERY kind the library knows '
         '(gauge_<mode> for all of Gauge._MULTIPROC_MODES, counter, histogram, summary) is removed between the listing and the read: the '
         'live ones (those mark_process_dead removes) must be skipped silently, outcome of every kind compared with the model\'s read_listed; '
+        'INTERLEAVED READER: the reader is also run on a LIVE file: the file object it opens is replaced by a wrapper (unbuffered, '
+        'so that every read() reaches the file) and before each of its accesses - open, every read, every seek - the writer advances by '
+        '0..k of the recorded file effects (the successive distinct file states are put into the same inode); schedules: ALL start states x '
+        'ALL advances 0..4 between the first and the later accesses for the exhaustive slice at block sizes 16..64 patched into '
+        'mmap.PAGESIZE as seen by mmap_dict, random schedules (advances 0..6 or to the end) for random histories at patched block sizes '
+        'and for files with more than the REAL mmap.PAGESIZE in use (many keys, long keys, an entry whose value straddles the block '
+        'boundary), and MultiProcessCollector.collect() under the same interleaving for collector cases; the result must be Ok, have the '
+        'key list of a prefix state (+ in-flight key) lying between the file state of the reader\'s first read and that of its last, every '
+        '(value, timestamp) must be one its key held in such a state, a reader that made a single read must return exactly the state of '
+        'that read; when the reader\'s accesses are the pinned ones (read(PAGESIZE) [, read(used - PAGESIZE)]) the result is compared '
+        'with the model\'s read_all_from_file_il on the same two cuts; '
         'exhaustive slice: all histories of '
         'length <= 2 over a 9-op alphabet at a small size; thorough tier: forked writers SIGKILLed at random instants (direct oracle only); '
         'non-trivial = the history has at least 4 distinct cut states; distinct by case')
@@ -47,10 +61,18 @@ TRUSTED = ['a slice assignment to a shared mapping is observed whole by a concur
            'fork() gives the child the parent\'s handle as it is (same open file description, same MAP_SHARED mapping); the child that '
            'closes it is a real forked process, the closes are placed at operation boundaries of the parent',
            'a file removed between glob() and open() is simulated by unlinking it right after the listing call returns',
+           'one read() call of the reader is served whole from one file state (the reader\'s reads and seeks are the pre-emption '
+           'points; a read torn by a concurrent slice write is not explored); the reader\'s handle is unbuffered in the harness, so every '
+           'read() sees the file as it is then (a buffered handle can only serve older bytes of the same window)',
+           'the writer of an interleaved read is replayed: the recorded successive file states are written into the inode the reader '
+           'holds open, instead of a second process performing the slice writes',
            'UTF-8 and struct facts as in C10']
 ASSUMPTIONS = ['keys are encodable strings; used bytes < 2^31',
-               'the reader is run on a private copy of each cut file (a reader concurrent with further writes sees one of the later cuts)']
-TIME_BUDGET = {'quick': 85, 'thorough': 800}
+               'mmap.PAGESIZE is a multiple of 8 (every patched block size is): a read boundary never cuts a double',
+               'atomic cuts: the reader is run on a private copy of each cut file; interleaved reads: the reader\'s accesses are '
+               'interleaved with the writer\'s effects at Python level (open/read/seek of the file object obtained from open() in mmap_dict); '
+               'a reader that bypasses that file object (fileno, os.read, mmap) is observed as atomic at its first access']
+TIME_BUDGET = {'quick': 95, 'thorough': 800}
 
 
 # ---------------------------------------------------------------- generators
@@ -104,11 +126,98 @@ def rand_cont(rng, ops):
     return out
 
 
+IL_PGS = (16, 24, 32, 40, 64)
+
+
+def rand_il(rng, n=None, pg=None):
+    """how the reader is interleaved with the writer: block size (0 = the real mmap.PAGESIZE), number of random schedules"""
+    if pg is None:
+        pg = rng.choice(IL_PGS + (0, 0, 8, 48, 128, 256))
+    return {'pg': pg, 'mode': 'rand', 'n': n or rng.choice((4, 6, 10)), 'seed': rng.randrange(1 << 30), 'k': 6}
+
+
 def cases(ctx):
     for case in base_cases(ctx):
-        if 'kill_us' not in case and 'cont' not in case and 'forks' not in case:
+        if 'kill_us' not in case and 'cont' not in case and 'forks' not in case and not case.get('light'):
             case['cont'] = rand_cont(ctx.rng, case['ops'])
+        if 'kill_us' not in case and 'il' not in case and len(case['ops']) < 40:
+            small = case['isz'] < 4096 and not any(isinstance(op[1], list) for op in case['ops'] if op[0] != 'O')
+            case['il'] = rand_il(ctx.rng, pg=None if small else 0)
         yield case
+
+
+def page_cases(ctx):
+    """worker files with more than the REAL mmap.PAGESIZE in use while the writer goes on: many keys, long keys, and a key
+    whose 16 value bytes straddle the block boundary; then appends and overwrites of keys on both sides of the boundary"""
+    import mmap
+    rng = ctx.rng
+    pg = mmap.PAGESIZE
+    for i in range(ctx.n(10, 300)):
+        style = i % 5
+        ops = []
+        if style == 0:          # many counter-like keys
+            w = rng.choice((4, 150, 150, 300))
+            nk = rng.randrange(pg // (w + 60), pg // (w + 30)) + 2
+            keys = [coll_key('m%d' % (j % 7), ('lab%04d' % j).ljust(w, 'x')) for j in range(nk)]
+            ops = [['W', k, small_bits(rng), 0] for k in keys]
+        elif style == 1:        # one long key, then short ones
+            keys = [[rng.choice(('a', '\xe9')), rng.randrange(pg // 2, 2 * pg), rand_key(rng, 4)]] + [rand_key(rng) for _ in range(4)]
+            keys = [k for j, k in enumerate(keys) if k not in keys[:j]]
+            ops = [['W', k, rand_bits(rng), rand_bits(rng)] for k in keys]
+        elif style == 2:        # an entry ends exactly at / its value straddles / its key straddles the block boundary
+            want = pg - rng.choice((8, 8, 8, 0, 16, 24, 40))       # offset of the 16 value bytes of the boundary entry
+            keys, used = [], 8
+            while want - used > 400:
+                k = rand_key(rng)
+                if k in keys:
+                    continue
+                n = len(key_str(k).encode('utf-8'))
+                keys.append(k)
+                used += 4 + n + (8 - (n + 4) % 8) + 16
+            n = want - used - 4 - 1          # key bytes: 4 + n + pad = want - used with pad = 1..8
+            if n >= 1:
+                keys.append(['q', n, ''])
+            keys += [k for k in (rand_key(rng), rand_key(rng)) if k not in keys]
+            ops = [['W', k, rand_bits(rng), rand_bits(rng)] for k in keys]
+        elif style == 3:        # typed: a histogram with enough label groups
+            metric = 'h'
+            keys = []
+            for g in range(rng.randrange(2, 4)):
+                keys += group_keys('histogram', metric, {'g': ('v%d' % g).ljust(rng.choice((2, 120)), 'y')},
+                                   DEFAULT_BOUNDS[:rng.randrange(6, 15)] + ('+Inf',))
+            while sum(len(k) + 28 for k in keys) < pg + 200:
+                keys += group_keys('histogram', metric, {'g': 'w%d' % len(keys)}, ('1.0', '+Inf'))
+            ops = [['R', k] for k in keys]
+        else:                   # random keys of mixed sizes
+            keys = []
+            while sum(len(key_str(k).encode('utf-8')) + 28 for k in keys) < pg + rng.randrange(0, pg):
+                k = rand_key(rng, 60) if rng.random() < 0.5 else [rng.choice(('a', '\u20ac')), rng.randrange(100, 900), rand_key(rng, 4)]
+                if k not in keys:
+                    keys.append(k)
+            ops = [['W', k, rand_bits(rng), rand_bits(rng)] for k in keys]
+        base = len(ops)
+        keys = [op[1] for op in ops]
+        fresh = 0
+        for _ in range(rng.randrange(3, 12)):
+            r = rng.random()
+            if r < 0.35:
+                fresh += 1
+                k = 'new%d' % fresh + 'x' * rng.randrange(0, 40)
+                if style == 0:
+                    k = coll_key('m%d' % (fresh % 7), k)
+                elif style == 3:
+                    k = mkey('h', 'h_bucket', {'g': k, 'le': '+Inf'})
+                ops.append(['W', k, small_bits(rng) if style in (0, 3) else rand_bits(rng), 0 if style in (0, 3) else rand_bits(rng)]
+                           if rng.random() < 0.5 else ['R', k])
+            elif r < 0.9:
+                # overwrite on both sides of the boundary: early keys, late keys, the boundary key
+                k = rng.choice(keys[:3] + keys[-4:] + [rng.choice(keys)])
+                ops.append(['W', k, rand_bits(rng), rand_bits(rng)])
+            else:
+                ops.append(['O'])
+        yield {'isz': rng.choice((4096, 8192, 8192, 16384, 65536)), 'ops': ops, 'light': True,
+               'il': {'pg': 0, 'mode': 'rand', 'n': 24, 'seed': rng.randrange(1 << 30), 'k': 6, 'from': base,
+                      'scrape': {0: 'counter', 3: 'histogram'}.get(style)}}
 
 
 # ---- typed worker files: the keys a label group of each metric type creates, in the library's order
@@ -212,6 +321,18 @@ def base_cases(ctx):
             yield {'isz': 65536 if len(c) == 1 else 64, 'ops': [['W', 'first', 0x3ff0000000000000, 5], ['W', k, 0x4000000000000000, 6]],
                    'cont': c}
     yield {'isz': 65536, 'ops': []}
+    # the reader interleaved with the writer: exhaustive slice (all start states x all advances) at patched block sizes
+    alpha2 = [['W', k, v, v ^ 1] for k in ('a', 'abcd', '\xe9') for v in (0x7ff0000000000001, 0x8000000000000000)] + \
+             [['R', k] for k in ('a', 'abcde')] + [['O']]
+    n = 0
+    for a in alpha2:
+        for b in alpha2:
+            for c in (alpha2 if ctx.thorough else [alpha2[(n * 5 + 1) % len(alpha2)]]):
+                n += 1
+                yield {'isz': 64 if n % 3 else 32, 'ops': [a, b, c], 'light': True,
+                       'il': {'pg': IL_PGS[n % len(IL_PGS)], 'mode': 'all', 'k': 4}}
+    for case in page_cases(ctx):
+        yield case
     yield {'isz': 65536, 'ops': [['W', 'a', 0x3ff0000000000000, 0]]}
     yield {'isz': 65536, 'ops': [['R', 'abcd'], ['W', 'abcd', 0x7ff8000000000001, 0x8000000000000000], ['O'], ['W', 'é', 1, 2]]}
     # exhaustive small slice
@@ -367,6 +488,211 @@ def install(mod, rec):
         else:
             del mod.open
     return undo
+
+
+# ---- the reader interleaved with the writer
+class Writer:
+    """the writer of an interleaved read, replayed: puts the successive recorded file states into the file (same inode, so
+    the handle the reader holds stays valid); idx = the state the file is in"""
+
+    def __init__(self, path, snaps, start):
+        self.path, self.snaps = path, snaps
+        self.idx = min(start, len(snaps) - 1)
+        with open(path, 'wb') as f:
+            f.write(snaps[self.idx])
+
+    def advance(self, d):
+        j = min(self.idx + d, len(self.snaps) - 1)
+        if j != self.idx:
+            raw = self.snaps[j]
+            with open(self.path, 'r+b') as f:
+                f.write(raw)
+                f.truncate(len(raw))
+            self.idx = j
+
+
+class Preempted:
+    """the file object the reader gets from open(): unbuffered, and before each access the writer advances by the next
+    number of the schedule.  Every access is logged with the file state it was served from."""
+
+    def __init__(self, f, il):
+        self._f, self._il = f, il
+
+    def _pre(self):
+        il = self._il
+        il.writer.advance(il.sched.pop(0) if il.sched else 0)
+
+    def read(self, *a):
+        self._pre()
+        off = self._f.tell()
+        n = a[0] if a and a[0] is not None else -1
+        data = self._f.read() if n < 0 else self._f.read(n)
+        if data is None:
+            data = b''
+        # a regular file gives short reads only at its end
+        while 0 <= len(data) < n:
+            more = self._f.read(n - len(data))
+            if not more:
+                break
+            data += more
+        self._il.log.append(['read', off, n, len(data), self._il.writer.idx])
+        return data
+
+    def readall(self):
+        return self.read()
+
+    def readinto(self, b):
+        data = self.read(len(b))
+        b[:len(data)] = data
+        return len(data)
+
+    def seek(self, *a):
+        self._pre()
+        r = self._f.seek(*a)
+        self._il.log.append(['seek', list(a), r, 0, self._il.writer.idx])
+        return r
+
+    def fileno(self):
+        self._il.escaped = True          # os.read / mmap / fstat on the descriptor: no longer observable here
+        return self._f.fileno()
+
+    def __getattr__(self, name):
+        return getattr(self._f, name)
+
+    def __enter__(self):
+        return self
+
+    def __exit__(self, *a):
+        self._f.close()
+        return False
+
+    def __iter__(self):
+        return iter(self.read().splitlines(True))
+
+
+class PgModule:
+    """mmap as mmap_dict sees it, with another PAGESIZE"""
+
+    def __init__(self, real, pg):
+        self._real = real
+        self.PAGESIZE = pg
+
+    def __getattr__(self, name):
+        return getattr(self._real, name)
+
+
+class Interleave:
+    def __init__(self, mod, path, snaps, sched, pg):
+        self.mod, self.path, self.pg = mod, os.path.abspath(path), pg
+        self.writer = Writer(path, snaps, sched[0])
+        self.sched = list(sched[1:])
+        self.log = []
+        self.escaped = False
+        self.opened = None
+
+    def open(self, file, mode='r', *a, **kw):
+        import builtins
+        try:
+            mine = os.path.abspath(os.fspath(file)) == self.path and 'b' in mode and not any(c in mode for c in 'wa+x')
+        except TypeError:
+            mine = False
+        if not mine:
+            return builtins.open(file, mode, *a, **kw)
+        self.writer.advance(self.sched.pop(0) if self.sched else 0)
+        f = builtins.open(file, 'rb', buffering=0)
+        if self.opened is None:
+            self.opened = self.writer.idx
+        self.log.append(['open', 0, 0, 0, self.writer.idx])
+        return Preempted(f, self)
+
+    def __enter__(self):
+        mod = self.mod
+        self.had_open = 'open' in mod.__dict__
+        self.old_open = mod.__dict__.get('open')
+        self.old_mmap = mod.mmap
+        mod.open = self.open
+        if self.pg:
+            mod.mmap = PgModule(self.old_mmap, self.pg)
+        return self
+
+    def __exit__(self, *a):
+        mod = self.mod
+        mod.mmap = self.old_mmap
+        if self.had_open:
+            mod.open = self.old_open
+        else:
+            del mod.open
+        return False
+
+    def summary(self):
+        reads = [e for e in self.log if e[0] == 'read']
+        first = reads[0][4] if reads and not self.escaped else (self.opened if self.opened is not None else self.writer.idx)
+        return {'log': self.log[:12], 'escaped': self.escaped, 'lo': first, 'hi': self.writer.idx}
+
+
+def il_schedules(il, snaps):
+    """[start state, advance before open, before the 1st access after open (the first read), before the 2nd, ...]"""
+    import random
+    n = len(snaps)
+    k = il.get('k', 4)
+    if il.get('mode') == 'all':
+        out = [[s0, 0, 0, d] for s0 in range(n) for d in range(k + 1)]             # the writer goes on between read 1 and access 2
+        out += [[s0, 0, 0, 0, d] for s0 in range(0, n, 2) for d in (1, 2, 3)]       # ... before a THIRD access (a read after a seek)
+        out += [[s0, 0, 1, 1, 1] for s0 in range(1, n, 2)]
+        return out
+    rng = random.Random(il.get('seed', 0))
+    lo = 0
+    if il.get('from'):
+        # start where more than one block is in use: the states of the operations after the first `from`
+        import mmap
+        pg = il.get('pg') or mmap.PAGESIZE
+        big = [i for i, raw in enumerate(snaps) if len(raw) >= 4 and struct.unpack_from('<i', raw, 0)[0] > pg]
+        lo = big[0] if big else 0
+    out = []
+    for _ in range(il.get('n', 6)):
+        s0 = rng.randrange(lo, n) if rng.random() < 0.85 else rng.randrange(n)
+        adv = []
+        for _j in range(4):
+            r = rng.random()
+            adv.append(0 if r < 0.3 else rng.randrange(1, k + 1) if r < 0.9 else n)
+        if rng.random() < 0.5:
+            adv[0] = 0
+        out.append([s0] + adv)
+    return out
+
+
+def interleaved(mod, snaps, tmp, sched, pg, fname, scrape_others=None):
+    """read_all_values_from_file (or a whole scrape) on a file that changes under the reader"""
+    d = os.path.join(tmp, 'il')
+    shutil.rmtree(d, ignore_errors=True)
+    os.mkdir(d)
+    p = os.path.join(d, fname)
+    il = Interleave(mod, p, snaps, sched, pg)
+    if scrape_others is not None:
+        for name, ents in scrape_others:
+            write_complete(mod, os.path.join(d, name), ents)
+    with il:
+        if scrape_others is None:
+            res = attempt(lambda: canon_entries(mod.MmapedDict.read_all_values_from_file(p)))
+        else:
+            res = attempt(lambda: collect_dir(d))
+    out = il.summary()
+    out.update({'sched': sched, 'pg': pg, 'res': res, 'scrape': scrape_others is not None})
+    return out
+
+
+def pinned_pattern(o):
+    """(block size, state of the first read, state of the second read) when the reader's accesses are the pinned ones:
+    open, read(P) at offset 0 [, read(used - P) right behind it]"""
+    if o['escaped'] or o['scrape']:
+        return None
+    log = o['log']
+    if len(log) == 2 and log[0][0] == 'open' and log[1][:2] == ['read', 0] and log[1][2] >= 8:
+        return [log[1][2], log[1][4], log[1][4]]
+    if (len(log) == 3 and log[0][0] == 'open' and log[1][:2] == ['read', 0] and log[1][2] >= 8 and log[1][3] == log[1][2]
+            and log[2][0] == 'read' and log[2][1] == log[1][3] and log[2][2] > 0):
+        return [log[1][2], log[1][4], log[2][4]]
+    return None
 
 
 def write_complete(mod, path, entries):
@@ -810,8 +1136,10 @@ def impl(case):
                     others = [(oname, [(k, float(i + 1), 0.0) for i, k in enumerate(ks[:2])])]
                 others.append(('counter_300.db', [(coll_key('other', 'z'), 7.0, 0.0)]))
             cuts, extras = [], []
+            sreads = []
             for raw in rec.snaps:
                 o, extra = observe_cut(mod, raw, tmp, False, [])
+                sreads.append(o[0])
                 if not cuts or cuts[-1] != o:
                     if coll:
                         o, extra = observe_cut(mod, raw, tmp, True, others, fname, vanish_plan(mod, case, len(cuts)))
@@ -821,12 +1149,46 @@ def impl(case):
             for idx in select_cuts(rec.snaps, case):
                 conts.append(continue_from(mod, rec.snaps[idx], tmp, case.get('cont') or []))
             vanish = [[name, r[0] if r[0] == 'ok' else 'err:' + str(r[1])] for e in extras for name, r in e.get('vanish', [])]
+            ils, il_cmp = [], []
+            ilspec = case.get('il')
+            if ilspec and rec.snaps and err is None and 'stopped' not in info:
+                import mmap
+                for sched in il_schedules(ilspec, rec.snaps):
+                    o = interleaved(mod, rec.snaps, tmp, sched, ilspec.get('pg') or 0, fname)
+                    o['win'] = _window(sreads, o['lo'], o['hi'])
+                    pat = pinned_pattern(o)
+                    if pat:
+                        il_cmp.append(pat + [o['res']])
+                    ils.append(o)
+                typ = ilspec.get('scrape')
+                if typ:
+                    beside = [(typ + '_200.db', [(k, 1.0, 0.0) for k in [key_str(op[1]) for op in case['ops'] if op[0] != 'O'][:2]]),
+                              ('counter_300.db', [(coll_key('other', 'z'), 7.0, 0.0)])]
+                    for sched in il_schedules(dict(ilspec, n=4), rec.snaps):
+                        o = interleaved(mod, rec.snaps, tmp, sched, ilspec.get('pg') or 0, typ + '_100.db', beside)
+                        o['win'] = []
+                        try:
+                            o['written'] = sorted({series_of_key(k) for k, _v, _t in _decode_entries(mod, rec.snaps[o['hi']])} |
+                                                  {series_of_key(k) for _n, ents in beside for k, _v, _t in ents})
+                        except Exception as e:
+                            o['written'] = None
+                        ils.append(o)
             res = {'cuts': cuts, 'extras': extras, 'writer_error': err, 'nsnaps': len(rec.snaps), 'conts': conts,
-                   'closes': info['closes'], 'vanish': vanish, 'info': {k: v for k, v in info.items() if k != 'closes'}}
-            _LAST[0] = (_case_key(case), [c['file'] for c in conts], [v[0] for v in vanish])
+                   'closes': info['closes'], 'vanish': vanish, 'info': {k: v for k, v in info.items() if k != 'closes'},
+                   'il': ils, 'il_cmp': [len(rec.snaps), il_cmp] if il_cmp else []}
+            _LAST[0] = (_case_key(case), [c['file'] for c in conts], [v[0] for v in vanish], res['il_cmp'])
             return res
     finally:
         shutil.rmtree(tmp, ignore_errors=True)
+
+
+def _window(sreads, lo, hi):
+    """what an atomic reader returns on the file states lo..hi (consecutive duplicates once)"""
+    out = []
+    for r in sreads[lo:hi + 1]:
+        if not out or out[-1] != r:
+            out.append(r)
+    return out
 
 
 _LAST = [None]       # cut files of the last impl() call, for model(): the model is run on the files found on disk
@@ -914,7 +1276,13 @@ def model(m, case):
     if 'kill_us' in case:
         return None
     import mmap
-    r = m.call('c11_cuts', case['isz'], mmap.PAGESIZE, sx_wops(wops_of(case)))
+    if case.get('light') and len(case['ops']) > 24:
+        # long histories whose subject is the interleaved reader: the per-cut observations are the direct oracle's here
+        r = ['skipped', [], []]
+        skipped = True
+    else:
+        skipped = False
+        r = m.call('c11_cuts', case['isz'], mmap.PAGESIZE, sx_wops(wops_of(case)))
     if r[0] == 'err':
         return {'cuts': [['err', r[1]]]}
     closes = [[c[0], d_int(c[1]), d_int(c[2]), c[3] == 'T'] if c[1] != 'err' else [c[0], 'err'] for c in r[2]]
@@ -933,7 +1301,7 @@ def model(m, case):
             cuts.append(o)
     # continuation: the model's open_ on the very cut files found on disk, then its steps
     conts = []
-    if case.get('cont') or case.get('coll'):
+    if case.get('cont') or case.get('coll') or case.get('il'):
         if not _LAST[0] or _LAST[0][0] != _case_key(case):
             impl(case)
     if case.get('cont'):
@@ -950,7 +1318,19 @@ def model(m, case):
                 v = m.call('c11_vanish', mmap.PAGESIZE, parts[0].encode(), parts[1].encode())
                 _VANISH[name] = 'ok' if v[0] == 'ok' else 'err:' + v[1]
             vanish.append([name, _VANISH[name]])
-    return {'cuts': cuts, 'conts': conts, 'closes': closes, 'vanish': vanish}
+    # the reader interleaved with the writer: the model's two-read reader on the two file states the implementation's
+    # first and second read were served from (only where the implementation's accesses are the pinned ones)
+    il_cmp = []
+    if case.get('il') and _LAST[0][3]:
+        nfiles, pats = _LAST[0][3]
+        r = m.call('c11_ileave', case['isz'], sx_wops(wops_of(case)), [[p[0], p[1], p[2]] for p in pats])
+        if r[0] == 'err':
+            il_cmp = ['err', r[1]]
+        else:
+            il_cmp = [d_int(r[0]), [p[:3] + [d_entries(x)] for p, x in zip(pats, r[1])]]
+    if skipped:
+        cuts = closes = None
+    return {'cuts': cuts, 'conts': conts, 'closes': closes, 'vanish': vanish, 'il_cmp': il_cmp}
 
 
 _VANISH = {}
@@ -970,9 +1350,10 @@ def sx_wops(wops):
 def same(i, mo):
     if mo is None:
         return True
-    return (i['cuts'] == mo['cuts'] and not i.get('writer_error')
+    return ((mo['cuts'] is None or i['cuts'] == mo['cuts']) and not i.get('writer_error')
             and [c['steps'] for c in i.get('conts', [])] == mo.get('conts', [])
-            and i.get('closes', []) == mo.get('closes', []) and i.get('vanish', []) == mo.get('vanish', []))
+            and (mo.get('closes') is None or i.get('closes', []) == mo.get('closes', [])) and i.get('vanish', []) == mo.get('vanish', [])
+            and i.get('il_cmp', []) == mo.get('il_cmp', []))
 
 
 # ---------------------------------------------------------------- direct oracle
@@ -1061,6 +1442,15 @@ def direct(case, obs):
             if extra.get('collect_clean') != extra['collect']:
                 return '%s: collect() over the cut file %r differs from collect() over the equivalent complete file %r' % (
                     what, extra['collect'], extra.get('collect_clean'))
+    torn = None
+    for o in obs.get('il', []):
+        r = direct_il(case, o, len(obs['cuts']) and obs['nsnaps'])
+        if r and r.startswith(TORN):
+            torn = torn or r           # reported last: a torn pair at the block boundary is a finding of its own
+        elif r:
+            return r
+    if torn:
+        return torn
     for ci, c in enumerate(obs.get('conts', [])):
         r = direct_cont(case, c, allowed)
         if r:
@@ -1075,6 +1465,73 @@ def direct(case, obs):
         last = obs['cuts'][-1][0]
         if last != ['ok', allowed[-1][2]]:
             return 'the final file reads %r, expected the complete state %r' % (last, allowed[-1][2][:8])
+    return None
+
+
+TORN = 'interleaved-read torn-pair:'
+
+
+def _klen(k):
+    return len(k) // 2 if isinstance(k, str) else k[2]
+
+
+def _il_what(o, nsnaps):
+    acc = ', '.join('%s@#%d' % ('read(%d) at %d got %d' % (e[2], e[1], e[3]) if e[0] == 'read' else
+                                 'seek%r' % (tuple(e[1]),) if e[0] == 'seek' else 'open', e[4] + 1) for e in o['log'])
+    return ('%s interleaved with the writer (block size %s, schedule %r over the %d successive file states; accesses served from: %s)'
+            % ('collect()' if o['scrape'] else 'read_all_values_from_file', o['pg'] or 'mmap.PAGESIZE', o['sched'], nsnaps, acc))
+
+
+def direct_il(case, o, nsnaps):
+    """the reader's accesses were interleaved with the writer's effects; win = what an atomic reader returns on each of the
+    file states between the reader's first read and its last access"""
+    what = _il_what(o, nsnaps)
+    res = o['res']
+    if res[0] != 'ok':
+        return '%s raised %s: a writer that goes on between two accesses of the reader makes the read fail' % (what, res[1])
+    if o['scrape']:
+        # a scrape under the same interleaving: no series whose key nobody wrote by the reader's last access (the values are
+        # the merge's business, C08)
+        if o.get('written') is None:
+            return None
+        ph = phantoms(res[1], {(n, tuple(tuple(l) for l in ls)) for n, ls in o['written']})
+        if ph:
+            return '%s reports series whose keys no writer ever wrote: %r' % (what, ph[:4])
+        return None
+    states = [w[1] for w in o['win'] if w[0] == 'ok']
+    if not states:
+        return None                      # the atomic oracle reports unreadable cut states
+    got = res[1]
+    keys = [e[0] for e in got]
+    if not any([e[0] for e in st] == keys for st in states):
+        known = {repr(e[0]) for st in states for e in st}
+        bad = [k for k in keys if repr(k) not in known]
+        if bad:
+            return '%s returned a key that was never written: %r' % (what, bad[:3])
+        return ('%s returned the keys %r: the key list of no prefix state (+ in-flight key) between the state of its first read %r '
+                'and the state of its last access %r' % (what, keys[:8], [e[0] for e in states[0]][:8], [e[0] for e in states[-1]][:8]))
+    reads = [e for e in o['log'] if e[0] == 'read']
+    if len(reads) == 1 and not o['escaped'] and ['ok', got] not in o['win'][:1]:
+        # (the window starts at the state of the first read)
+        return '%s made a single read and returned %r, not the state of the file at that read %r' % (what, got[:6], o['win'][0])
+    pos = 8
+    for e in got:
+        n = _klen(e[0])
+        vpos = pos + 4 + n + (8 - (n + 4) % 8)
+        pos = vpos + 16
+        pairs = {(x[1], x[2]) for st in states for x in st if x[0] == e[0]}
+        if (e[1], e[2]) in pairs:
+            continue
+        if e[1] in {q[0] for q in pairs} and e[2] in {q[1] for q in pairs}:
+            first = reads[0][3] if reads else 0
+            if len(reads) == 2 and vpos + 8 == first:
+                return ('%s %s returned for key %r the pair (value %#x, timestamp %#x), which was never written: the value is the one '
+                        'of the state at the first read, the timestamp the one of a later state; the 16 value bytes of this entry lie at '
+                        'offset %d, across the end of the first read (%d bytes)' % (TORN, what, e[0], e[1], e[2], vpos, first))
+            return ('%s returned for key %r the pair (value %#x, timestamp %#x): each half was written, the pair never was (value '
+                    'bytes at offset %d)' % (what, e[0], e[1], e[2], vpos))
+        return ('%s returned for key %r the pair (value %#x, timestamp %#x), which the key held in no state between the reader\'s '
+                'first read and its last access: %r' % (what, e[0], e[1], e[2], sorted(pairs)[:4]))
     return None
 
 
@@ -1158,6 +1615,25 @@ def classify(case, obs):
     for e in obs.get('extras', []):
         if case.get('typ') == 'histogram' and 'phantom' in e:
             out.append('histogram-cut-scraped')
+    for o in obs.get('il', []):
+        out.append('il-scrape' if o['scrape'] else 'il-read')
+        if o['scrape']:
+            continue
+        reads = [e for e in o['log'] if e[0] == 'read']
+        pat = pinned_pattern(o)
+        out.append('il-accesses=' + ('escaped' if o['escaped'] else 'pinned-1-read' if pat and len(reads) == 1 else
+                                     'pinned-2-reads' if pat else 'other-%d-reads' % min(len(reads), 4)))
+        out.append('il-block=' + ('real' if not o['pg'] else 'patched'))
+        if o['hi'] > o['lo']:
+            out.append('il-writer-advanced-during-read')
+            if len(reads) >= 2:
+                out.append('il-2-reads-writer-advanced')
+                if len(o['win']) > 1 and o['res'][0] == 'ok':
+                    r = ['ok', o['res'][1]]
+                    out.append('il-result=' + ('state-of-first-read' if r == o['win'][0] else 'state-of-last-access' if r == o['win'][-1]
+                                               else 'a-state-between' if r in o['win'] else 'MIXED-not-a-prefix-state'))
+                    if [e[0] for e in o['win'][0][1]] != [e[0] for e in o['win'][-1][1]] if o['win'][0][0] == 'ok' == o['win'][-1][0] else False:
+                        out.append('il-2-reads-append-in-between')
     return out
 
 
@@ -1166,7 +1642,7 @@ def _keep(case, c):
         c['coll'] = True
     if case.get('cont'):
         c['cont'] = case['cont']
-    for k in ('typ', 'other'):
+    for k in ('typ', 'other', 'il', 'light'):
         if k in case:
             c[k] = case[k]
     if case.get('forks'):
